@@ -836,6 +836,14 @@ func (f *Frame) typeAssert(ins *ssa.TypeAssert, st State) Val {
 	var ok, val Term
 	if _, isIface := at.Underlying().(*types.Interface); isIface {
 		f.vc.noteIfaceAssert(at)
+		// typing of the operand: a non-nil value of static interface type S holds a
+		// dynamic type that implements S (narrows the closed-world candidates)
+		if sn, ok := ins.X.Type().(*types.Named); ok && sn.Obj().Pkg() != nil && f.w.inModule(sn.Obj().Pkg().Path()) {
+			if si, ok := sn.Underlying().(*types.Interface); ok && si.NumMethods() > 0 {
+				f.vc.noteIfaceAssert(sn)
+				f.vc.Assume(Implies(Ne(ITag(x), IntLit(0)), App("implements!", SBool, IntLit(int64(f.w.Sorts.Tag(sn))), ITag(x))))
+			}
+		}
 		ok = And(Ne(ITag(x), IntLit(0)), App("implements!", SBool, IntLit(int64(f.w.Sorts.Tag(at))), ITag(x)))
 		val = x
 	} else {
